@@ -4,8 +4,8 @@ import importlib
 # property -> list of (rule module, configs it needs in quick tier)
 PROPERTY_RULES = {
     "C01": ["r_a10", "r_a9", "r_a8", "r_a2", "r_o3", "r_a12", "r_a13", "r_a4", "r_a16", "r_a17", "r_a19", "r_a18"],
-    "C02": ["r_a6", "r_a4", "r_a8", "r_a2", "r_o3", "r_e1", "r_b1", "r_a13", "r_a14", "r_a16", "r_a17", "r_a18"],
-    "C03": ["r_a2", "r_a3", "r_a8", "r_a14"],
+    "C02": ["r_a6", "r_a4", "r_a8", "r_a2", "r_o3", "r_e1", "r_b1", "r_a13", "r_a14", "r_a16", "r_a17", "r_a18", "r_a9", "r_c6"],
+    "C03": ["r_a2", "r_a3", "r_a8", "r_a14", "r_b1"],
     "C04": ["r_a8", "r_e1", "r_a6", "r_a2", "r_b1", "r_o3", "r_a4", "r_a17", "r_a18"],
     "C05": ["r_b1", "r_o3", "r_a2", "r_a12"],
     "C06": ["r_b1", "r_o3", "r_a2"],
@@ -18,7 +18,7 @@ PROPERTY_RULES = {
     "C13": ["r_e4", "r_a6", "r_c3", "r_e1", "r_a13", "r_a16", "r_c7", "r_a8"],
     "C14": ["r_d1"],
     "C15": ["r_d2", "r_d3"],
-    "C16": ["r_e1", "r_e2", "r_e5"],
+    "C16": ["r_e1", "r_e2", "r_e5", "r_b1", "r_o3", "r_a2", "r_a9"],
     "C17": ["r_c6", "r_a3", "r_c5", "r_a14", "r_a6", "r_a16"],
     "C18": ["r_a15", "r_a2", "r_a12"],
 }
@@ -27,12 +27,15 @@ PROPERTY_RULES = {
 # K1 default features / debug profile and K5 the same sources without debug assertions and overflow checks, so that a fault
 # that hides behind a debug-only check is seen on every change; the properties about feature sets and atomics also take the
 # no_std (K2) and portable-atomic (K4) builds.
-QUICK_DEFAULT = ["K1", "K5"]
+QUICK_DEFAULT = ["K1", "K2", "K5"]
 QUICK_CONFIGS = {
     "C16": ["K1", "K2", "K4", "K5"],
-    "C05": ["K1", "K4", "K5"],
-    "C06": ["K1", "K4", "K5"],
-    "C03": ["K1", "K4", "K5"],
+    "C05": ["K1", "K2", "K4", "K5"],
+    "C06": ["K1", "K2", "K4", "K5"],
+    "C03": ["K1", "K2", "K4", "K5"],
+    "C02": ["K1", "K2", "K3", "K5"],
+    "C17": ["K1", "K2", "K3", "K5"],
+    "C15": ["K1", "K3", "K5"],
 }
 
 LEVEL = {"C14": "proof"}
